@@ -5,6 +5,10 @@ From Coq Require Import String.
 From DJC Require Import Lib.Base Media.Model Media.Names Media.Forms.
 From DJC Require Gen.C16.
 
+(* every constant below could be read from the source in its expected shape (an unreadable one is a sentinel + an entry here) *)
+Example generator_ok_anchor : Gen.C16.generator_errors = [].
+Proof. reflexivity. Qed.
+
 (* the attributes intercepted by the descriptors are exactly the model's access kinds: AMedia and AAttr p file_member *)
 Example lazy_attrs_anchor : Gen.C16.lazy_attrs = access_names.
 Proof. reflexivity. Qed.
@@ -24,10 +28,22 @@ Example post_init_anchor :
   Gen.C16.post_init_inline_attrs = map pair_inline_name all_pairs /\ Gen.C16.post_init_file_suffix = file_suffix.
 Proof. split; reflexivity. Qed.
 
+(* ... by identity with None, not by truthiness: the empty string is a value (pair_both: Some _, Some _; Both.both_rejected_values) *)
+Example post_init_test_anchor :
+  Gen.C16.post_init_test = s2n "getattr(self, inlined_attr) is not None and getattr(self, file_attr) is not None"%string.
+Proof. reflexivity. Qed.
+
 (* _get_comp_cls_attr: for each pair, an access to either member stops at the first class where
    check_pair_empty(member, member_file) is false and returns that class's value (attr_walk / pair_empty / pair_value) *)
 Example attr_rules_anchor :
   Gen.C16.attr_rules = map (fun p => (pair_names p, pair_names p)) [PJs; PCss; PTpl].
+Proof. reflexivity. Qed.
+
+(* check_pair_empty only READS the two members of the class being looked at (attr_walk changes nothing but the resolved set) *)
+Example check_pair_empty_anchor :
+  Gen.C16.check_pair_empty_body = [s2n "inline_attr_empty = getattr(comp_media, inline_attr, None) is None"%string;
+                                   s2n "file_attr_empty = getattr(comp_media, file_attr, None) is None"%string;
+                                   s2n "return inline_attr_empty and file_attr_empty"%string].
 Proof. reflexivity. Qed.
 
 (* _get_comp_cls_media: the class's OWN Media (c_media = cls.__dict__.get("Media"), fix 4205522) ... *)
